@@ -268,7 +268,10 @@ func (t *Transfer) ReadMsg() (*Msg, error) {
 
 	if tp := t.tsigProvider(); tp != nil {
 		// Need to work on the original message p, as that was used to calculate the tsig.
-		err = TsigVerifyWithProvider(p, tp, t.tsigRequestMAC, t.tsigTimersOnly)
+		// A signature that verifies does not undo the error of a short read.
+		if verr := TsigVerifyWithProvider(p, tp, t.tsigRequestMAC, t.tsigTimersOnly); verr != nil {
+			err = verr
+		}
 		if ts := m.IsTsig(); ts != nil {
 			t.tsigRequestMAC = ts.MAC
 		}
